@@ -3,6 +3,7 @@ CONSTANTS
   CfgChoices <- CfgsC04
   CtrlChoices <- CtrlsC04
   MethodChoices <- MethodsC04
+  TypeChoices <- NoTypes
   MaxCtrls = 1
   MaxMethods = 1
   SortBeforeReduce = TRUE
